@@ -2,8 +2,11 @@
     Property theorems only; each closed by [exact] of a lemma from Proofs/Json*.v.
     [serde_escape] is serde_json's writer, [decode_string] its (RFC 8259) reader,
     [read_borrowed] the reader behind a borrowed-only type, [rocfl_read_pos] rocfl's
-    reader for one inventory position, [KnownC10.*] the recorded defect classes. *)
-From Rocfl Require Import Base.Bytes Model.VersionNum Model.Json Model.KnownC10
+    reader for one inventory position, [create_object_cdir] the content directory names
+    create_object accepts, [KnownC10.*] the recorded defect classes (json-escape-borrowed,
+    validator-json-escape, id-trimmed; the two content-directory classes were repaired in
+    /repo by d88c1da and their theorems are unconditional now). *)
+From Rocfl Require Import Base.Bytes Model.VersionNum Model.Json Model.KnownC10 Generated.Consts
   Proofs.JsonFacts Proofs.JsonPathFacts Proofs.JsonPosFacts.
 Open Scope N_scope.
 
@@ -80,14 +83,49 @@ Theorem C10_cp_no_wedge : forall dst src lp,
 Proof. exact cp_no_wedge. Qed.
 Print Assumptions C10_cp_no_wedge.
 
+(** create_object's acceptance of a content directory (repo.rs:572-583, after fix d88c1da):
+    validate_content_dir and not blank, not `inventory.json`, not beginning with `inventory.json.` *)
+Theorem C10_create_object_content_dir_accepts_exactly : forall cdir,
+  create_object_cdir cdir = true <->
+  validate_content_dir cdir = true /\ is_empty cdir = false /\
+  bytes_eqb cdir K_INVENTORY_FILE = false /\ starts_with K_INVENTORY_SIDECAR_PREFIX cdir = false.
+Proof. exact create_object_cdir_iff. Qed.
+Print Assumptions C10_create_object_content_dir_accepts_exactly.
+
+(** every accepted content directory (no exception any more): the manifest entry of the
+    first cp is read back unchanged *)
 Theorem C10_content_path_roundtrip : forall v cdir lp,
   vwf v = true -> vfits v = true ->
-  validate_content_dir cdir = true -> c10_cdir_empty cdir = false ->
+  create_object_cdir cdir = true ->
   lpath_try_from lp = Ok lp -> is_empty lp = false ->
   utf8_valid cdir = true -> utf8_valid lp = true ->
   rocfl_read_pos PContentPath (serde_escape (content_path v cdir lp)) = Some (content_path v cdir lp).
 Proof. exact content_path_roundtrip. Qed.
 Print Assumptions C10_content_path_roundtrip.
+
+(** every accepted content directory: it never takes the place of inventory.json or of the
+    sidecar in the version directory, whatever the object's digest algorithm *)
+Theorem C10_accepted_content_dir_never_collides : forall cdir alg,
+  create_object_cdir cdir = true -> cdir_collides cdir alg = false.
+Proof. exact accepted_cdir_no_collision. Qed.
+Print Assumptions C10_accepted_content_dir_never_collides.
+
+Theorem C10_colliding_content_dir_refused : forall cdir alg,
+  cdir_collides cdir alg = true -> create_object_cdir cdir = false.
+Proof. exact collision_refused. Qed.
+Print Assumptions C10_colliding_content_dir_refused.
+
+(** create_object + first cp + commit with an accepted content directory never wedge the object *)
+Theorem C10_content_dir_no_wedge : forall v cdir lp alg,
+  vwf v = true -> vfits v = true ->
+  create_object_cdir cdir = true ->
+  lpath_try_from lp = Ok lp -> is_empty lp = false ->
+  utf8_valid cdir = true -> utf8_valid lp = true ->
+  rocfl_read_pos PContentDir (serde_escape cdir) = Some cdir /\
+  rocfl_read_pos PContentPath (serde_escape (content_path v cdir lp)) = Some (content_path v cdir lp) /\
+  cdir_collides cdir alg = false.
+Proof. exact accepted_cdir_no_wedge. Qed.
+Print Assumptions C10_content_dir_no_wedge.
 
 Theorem C10_object_id_stored_as_given : forall id t,
   create_object_id id = Ok t -> c10_id_trimmed id = false -> t = id.
@@ -111,12 +149,6 @@ Theorem C10_known_escape_class_always_wedges : forall dst src lp,
 Proof. exact cp_wedge. Qed.
 Print Assumptions C10_known_escape_class_always_wedges.
 
-Theorem C10_known_empty_content_dir_refuted : forall v lp,
-  validate_content_dir [] = true /\
-  rocfl_read_pos PContentPath (serde_escape (content_path v [] lp)) = None.
-Proof. intros v lp. split; [reflexivity|exact (content_path_empty_cdir_wedge v lp)]. Qed.
-Print Assumptions C10_known_empty_content_dir_refuted.
-
 Theorem C10_known_id_trimmed_refuted : forall id t,
   create_object_id id = Ok t -> c10_id_trimmed id = true -> t <> id.
 Proof. exact create_object_id_differs. Qed.
@@ -126,6 +158,24 @@ Theorem C10_known_validator_escape_refuted : forall p s,
   c10_validator_needs_json_escape p s = true -> validator_read_pos p (serde_escape s) = None.
 Proof. exact validator_read_fails. Qed.
 Print Assumptions C10_known_validator_escape_refuted.
+
+(** ** historical notes: the acceptance BEFORE fix d88c1da ([create_object_cdir_before_fix] =
+    validate_content_dir alone) violated the property; the current model refuses these names *)
+Theorem C10_before_fix_empty_content_dir_wedged : forall v lp,
+  create_object_cdir_before_fix [] = true /\
+  rocfl_read_pos PContentPath (serde_escape (content_path v [] lp)) = None /\
+  create_object_cdir [] = false.
+Proof. intros v lp. split; [reflexivity|split; [exact (content_path_empty_cdir_wedge v lp)|reflexivity]]. Qed.
+Print Assumptions C10_before_fix_empty_content_dir_wedged.
+
+Theorem C10_before_fix_inventory_names_accepted : forall alg,
+  create_object_cdir_before_fix [] = true /\
+  create_object_cdir_before_fix K_INVENTORY_FILE = true /\ cdir_collides K_INVENTORY_FILE alg = true /\
+  (existsb (fun x => code x =? 47) alg = false ->
+   create_object_cdir_before_fix (K_INVENTORY_SIDECAR_PREFIX ++ alg) = true /\
+   cdir_collides (K_INVENTORY_SIDECAR_PREFIX ++ alg) alg = true).
+Proof. exact before_fix_accepted_blank_and_inventory_names. Qed.
+Print Assumptions C10_before_fix_inventory_names_accepted.
 
 (** ** Non-vacuity: the hypotheses are met by concrete inputs *)
 Example C10_nonvacuous_strings :
@@ -155,6 +205,16 @@ Example C10_nonvacuous_positions :
   rocfl_read_pos PContentPath (serde_escape (content_path (mkV 1 0) (b "content") (b "d/f.txt")))
     = Some (b "v1/content/d/f.txt") /\
   vwf (mkV 1 0) = true /\ vfits (mkV 1 0) = true /\ validate_content_dir (b "content") = true /\
-  c10_cdir_collides_with_inventory (b "inventory.json.sha512") (b "sha512") = true /\
-  validate_content_dir (b "inventory.json") = true /\ validate_content_dir (b "a/b") = false.
+  validate_content_dir (b "inventory.json") = true /\ validate_content_dir (b "a/b") = false /\
+  (* create_object's content directory: accepted names, and the refused ones with their neighbours *)
+  create_object_cdir (b "content") = true /\ create_object_cdir (bs [97; 34; 92; 98]) = true /\
+  create_object_cdir (b "inventory.jso") = true /\ create_object_cdir (b "inventory.jsonx") = true /\
+  create_object_cdir (b "Inventory.json") = true /\ create_object_cdir (b " inventory.json") = true /\
+  create_object_cdir [] = false /\ create_object_cdir (b "inventory.json") = false /\
+  create_object_cdir (b "inventory.json.") = false /\ create_object_cdir (b "inventory.json.sha512") = false /\
+  create_object_cdir (b "inventory.json.md5") = false /\ create_object_cdir (b "inventory.json.x y") = false /\
+  create_object_cdir (b ".") = false /\ create_object_cdir (b "..") = false /\ create_object_cdir (b "a/b") = false /\
+  cdir_collides (b "inventory.json.sha512") (b "sha512") = true /\
+  cdir_collides (b "inventory.json.sha512") (b "sha256") = false /\
+  rocfl_read_pos PContentDir (serde_escape (b "content")) = Some (b "content").
 Proof. repeat split; vm_compute; reflexivity. Qed.
